@@ -588,6 +588,15 @@ class VariantBase(productmd.common.MetadataBase):
                 raise ValueError("Variant ID doesn't match: '%s' vs '%s'" % (variant.id, variant_id))
 
     def add(self, variant, variant_id=None):
+        old_parent = variant.parent
+        try:
+            self._add(variant, variant_id=variant_id)
+        except Exception:
+            # a refused variant must not be left pointing to this container
+            variant.parent = old_parent
+            raise
+
+    def _add(self, variant, variant_id=None):
         if hasattr(self, "uid"):
             # detect Variant; we don't want to set parent for VariantBase or Variants
             variant.parent = self
